@@ -380,6 +380,13 @@ def oracle_C02(lhs, o, t, om):
         return f"the process aborted while this slice was mapped and read through the accessors; the reference rejects it ({om.get('kind')}@{om.get('pos')}), so it was either accepted or validation itself crashed"
     if o.get("wrapdiff"):
         return "FlatWrap::from_wrapped_bytes over the same bytes answered differently from from_bytes (acceptance, error, size() or as_bytes())"
+    # acceptance is exact (theorems `C02_gate`, `C02_*_accepts_iff`: the model accepts exactly the well-formed encodings), checked on the
+    # implementation: a slice on which the implementation and the reference disagree about *acceptance* is accepted-but-malformed or
+    # well-formed-but-rejected
+    if o["cls"] == "err" and om.get("cls") == "ok":
+        return f"from_bytes rejects ({o.get('kind')}@{o.get('pos')}) a slice that is a well-formed encoding by the acceptance criterion (C02_*_accepts_iff)"
+    if o["cls"] == "ok" and om.get("cls") == "err":
+        return f"from_bytes accepts a slice that the acceptance criterion (C02_*_accepts_iff) rejects ({om.get('kind')}@{om.get('pos')})"
     if o["cls"] != "ok":
         return None
     n = bytes_len(lhs)
@@ -586,7 +593,12 @@ def proj_C19(lhs, o, t):
     if o["cls"] == "err" and o["kind"] in ("invalidData", "invalidEnumTag"):
         return (o["kind"], o["pos"])
     return ()
-def oracle_C19(lhs, o, t):
+def oracle_C19(lhs, o, t, om=None):
+    # a content error on a slice that the acceptance criterion accepts (no byte of it is wrong) is a misreported position wherever it points
+    # (a different position on a slice with several wrong bytes is left to the correspondence: another validation order may name another one)
+    if om is not None and o["cls"] == "err" and o["kind"] in ("invalidData", "invalidEnumTag"):
+        if om.get("cls") == "ok":
+            return f"{o['kind']} reported at {o['pos']} on a slice in which no byte is wrong"
     if lhs[0] == "C":
         f = lhs.split(" ")
         kind, lo, hi = f[4], int(f[5]), int(f[6])
@@ -1223,6 +1235,8 @@ PROPS = {
 # ------------------------------------------------------------------------------------------------
 BRIDGE_GROUPS = {
     "arith": ["max_eq", "min_eq", "ceilMul_eq", "floorMul_eq", "err_offset", "untranslatable_none"],
+    # the checked entry points of `traits.rs` / `emplacer.rs` (shape sites: what is tested, what is mapped)
+    "entry": ["validate_shape", "emplace_shape", "assign_shape", "entry_untranslatable_none"],
     "iter": ["posNext_eq", "posList_step", "foldSize_step", "foldSize_last", "minSizeL_step", "minSizeL_last", "typeIter_minSize_step", "typeIter_minSize_last",
              "alignL_step", "foldSizeDyn_step", "foldSizeDyn_last", "validateAll_step", "validateAll_last", "walkAll_step", "iter_untranslatable_none"],
     "vec": ["vec_align", "vec_minSize", "vec_size", "vec_slots", "vec_viewLen", "vec_untranslatable_none"],
@@ -1236,14 +1250,14 @@ BRIDGE_GROUPS = {
     # (split by what the decision point belongs to, so that a change to an emplacer's test does not touch the validation properties)
     "guards": ["guard_checkAlignMin", "guard_iterCheck", "guard_bool", "arr_loop_step", "guard_vecValidate", "vec_elems_step", "vec_elems_visited", "guard_strValidate", "str_utf8_pos", "guard_flexSlotAlign", "guard_flexSlot",
                "flex_item_pos_last", "flex_item_pos_inner", "flex_slot_read_pos", "guard_cenum", "guard_uenum", "guards_untranslatable_none"],
-    "guards_emplace": ["guard_checkAlignMin", "guard_iterCheck", "guard_initWalker", "guard_vecFromArray", "guard_flexFillRoom", "guard_flexFillItem", "guard_flexFillSeal", "guards_untranslatable_none"],
+    "guards_emplace": ["guard_checkAlignMin", "guard_iterCheck", "guard_initWalker", "guard_initEnum", "guard_vecFromArray", "guard_flexFillRoom", "guard_flexFillItem", "guard_flexFillSeal", "guards_untranslatable_none"],
     "guards_push": ["guard_flexPushSeal", "guard_flexPushTail", "guard_flexTruncate", "guard_flexPop", "guards_untranslatable_none"],
     # the IO layer: window arithmetic of `Buffer`, the capacities the constructors allocate, and the decision points of
     # `write_all` / `WriteAll::poll` / `read` / `poll_read` / `recv` (conditions only; FV/BridgeIo.lean)
     "io_send": ["io_write_all_step", "aio_write_all_step", "aio_write_all_flush", "io_capacities", "io_untranslatable_none"],
     "io_recv": ["io_read_step", "io_make_contiguous", "io_skip", "io_advance", "aio_read_tests", "io_recv_closed", "aio_recv_closed", "io_recv_dispatch", "aio_recv_dispatch", "io_capacities", "io_untranslatable_none"],
 }
-LAYOUT = ["arith", "iter", "vec", "str", "flex", "macro", "guards"]
+LAYOUT = ["arith", "entry", "iter", "vec", "str", "flex", "macro", "guards"]
 EMPLACE = LAYOUT + ["guards_emplace", "flex_fill"]
 BRIDGE_OF = {
     "C01": LAYOUT, "C02": LAYOUT, "C03": EMPLACE, "C04": LAYOUT, "C05": LAYOUT, "C06": LAYOUT, "C07": LAYOUT + ["io_send", "io_recv"], "C10": LAYOUT + ["io_recv"],
